@@ -341,5 +341,14 @@ func laxEqual(a, j *lib.Node) bool {
 		}
 		return true
 	}
+	if a.Kind == 'S' && a.Text != j.Text {
+		// numbers written under the `string` tag option: the two libraries choose the exponent form
+		// at different magnitudes; compare the numbers
+		x, _ := lib.UnhexF(a.Text)
+		y, _ := lib.UnhexF(j.Text)
+		fx, e1 := strconv.ParseFloat(string(x), 64)
+		fy, e2 := strconv.ParseFloat(string(y), 64)
+		return e1 == nil && e2 == nil && fx == fy
+	}
 	return a.Text == j.Text
 }
